@@ -24,7 +24,7 @@ func cmdSeq(args []string) int {
 	par := fs.Int("par", 16, "parallel scripts")
 	file := fs.String("scripts", "", "ndjson file of scripts to run instead of random ones")
 	only := fs.Int("only", -1, "run only script i")
-	profile := fs.String("profile", "", "c01 | c02 | c08 | (empty: everything)")
+	profile := fs.String("profile", "", "c01 | c02 | c05 | c08 | (empty: everything)")
 	shard := fs.Int("shard", 0, "this process runs scripts i with i % shards == shard")
 	shards := fs.Int("shards", 1, "number of shards")
 	steer := fs.Bool("steer", true, "honour Mode=steer (one DB at a time in this process)")
@@ -113,7 +113,7 @@ func cmdSeq(args []string) int {
 	}
 	writeJSON(join(*out, "summary.json"), map[string]any{
 		"traces": w.Traces, "events": w.Events, "offsets": w.Offsets,
-		"workers": 1, "keys": maxKeys, "results": results,
+		"workers": 4, "keys": maxKeys, "results": results,
 	})
 	return 0
 }
